@@ -108,6 +108,8 @@ class Arg:
     def py(self):
         if self.c == "obj":
             return self.t.w
+        if self.c == "tuple":
+            return tuple(e.py() for e in self.extra)
         return self.v
 
     def cat(self):
@@ -120,6 +122,8 @@ class Arg:
             return f"<{self.t.cls} iid={self.t.iid}{' const' if self.t.const else ''}>"
         if self.c == "junk":
             return self.extra
+        if self.c == "tuple":
+            return "(" + ", ".join(e.desc() for e in self.extra) + ")"
         r = repr(self.v)
         return r if len(r) < 60 else r[:57] + "..."
 
@@ -464,9 +468,31 @@ class Driver:
                 return True
         return False
 
+    def tuple_coercible(self, K, a):
+        """may a (non-explicit) multi-parameter constructor of K take the elements of tuple a?"""
+        c = self.classes.get(K)
+        n = len(a.extra)
+        if not c:
+            return False
+        if n <= 1:
+            return self.coercible(K)
+        for f in c["ctors"]:
+            ps = f["params"]
+            if f.get("explicit") or len(ps) < n or any(p["default"] is None for p in ps[n:]):
+                continue
+            if all(self.acc(e, p["type"]) != "no" for e, p in zip(a.extra, ps)):
+                return True
+        return False
+
     def acc(self, a, t):
         k = t["k"]
         c = a.c
+        if c == "tuple":
+            if k == "bool":
+                return "maybe"
+            if k == "obj":
+                return "maybe" if self.tuple_coercible(t["cls"], a) else "no"
+            return "no"
         if k == "bool":
             return "yes" if c == "bool" else "maybe"
         if k == "int":
@@ -596,6 +622,11 @@ class Driver:
             return Arg("obj", t=o) if o else None
         raise KeyError(k)
 
+    def junk_scalar(self):
+        r = self.rng
+        return r.choice([Arg("int", r.choice([0, 1, -1, 255, 70000])), Arg("float", 1.5), Arg("str", r.choice(STRS)),
+                         Arg("bool", True)])
+
     def junk_arg(self):
         r = self.rng
         x = r.randrange(9)
@@ -608,6 +639,8 @@ class Driver:
         if x == 3:
             return Arg("bytes", r.choice([b"", b"abc", b"\xff\x00z"]))
         if x == 4:
+            if r.random() < 0.5:
+                return Arg("tuple", extra=[self.junk_scalar() for _ in range(r.choice([0, 1, 2, 2, 3]))])
             return Arg("junk", [1, 2], extra="list")
         if x == 5 and self.pool:
             return Arg("obj", t=r.choice(self.pool))
@@ -674,6 +707,10 @@ class Driver:
                 if not twin:
                     keep.append((f, s))
             cands = keep
+        if len(cands) > 1 and any(f.get("copy") for f, _ in cands):
+            # K(const K &) against K(Base *): an object against a pointer has no common ranking in C++ (Python has one
+            # kind of instance argument for both) -> no preference expressed
+            return cands
         # bool arguments also fit integer parameters: only equal-rank alternatives remain, no preference expressed
         ds = [dist(f, s) for f, s in cands]
         keep = []
@@ -716,6 +753,15 @@ class Driver:
             mode = "unspecified"
         any_oor = any(s_ is not None and self.acc(s_, p_["type"]) == "oor"
                       for f_, st_, sl_ in sts if sl_ for s_, p_ in zip(sl_, f_["params"]))
+        if not any_oor:
+            # integers inside a tuple meet the range checks of the constructors the tuple could be unpacked into
+            for f_, st_, sl_ in sts:
+                for s_, p_ in zip(sl_ or [], f_["params"]):
+                    if s_ is not None and s_.c == "tuple" and p_["type"]["k"] == "obj" and p_["type"]["cls"] in self.classes:
+                        for cf_ in self.classes[p_["type"]["cls"]]["ctors"]:
+                            if len(cf_["params"]) >= len(s_.extra) and any(
+                                    e_.c == "int" and self.acc(e_, cp_["type"]) == "oor" for e_, cp_ in zip(s_.extra, cf_["params"])):
+                                any_oor = True
         argdesc = [a.desc() for a in args] + [f"{k}={a.desc()}" for k, a in kw.items()]
         callsig = f"{what}({', '.join(argdesc)})" + (f" on <{recv.cls} iid={recv.iid}{' const' if recv.const else ''}>" if recv else "")
         self.step(f"{mode} {g['kind']} {g['owner']}::{g['name']} {callsig}")
@@ -1227,8 +1273,8 @@ class Driver:
             return iadd
         raise KeyError(op)
 
-    def make_call(self, g, kindpref=None):
-        """one random call on group g"""
+    def make_call(self, g, kindpref=None, fn=None, force=None):
+        """one random call on group g (fn / force: a given overload with given arguments at given positions)"""
         r = self.rng
         fns = g["fns"]
         recv = None
@@ -1250,7 +1296,7 @@ class Driver:
             recv0 = self.receiver_for(g["owner"])
             if recv0 is not None and self.resolve(g, recv0) is g:
                 recv = recv0       # static method called through an instance
-        f = r.choice(fns)
+        f = fn if fn is not None and fn in fns else r.choice(fns)
         ps = f["params"]
         nd = 0
         for p in reversed(ps):
@@ -1258,17 +1304,17 @@ class Driver:
                 break
             nd += 1
         how = kindpref or r.choices(["pos", "neg-count", "neg-type", "neg-range", "fuzz", "const-recv"], [60, 6, 10, 8, 12, 4])[0]
-        n = len(ps) - r.randint(0, nd)
+        n = len(ps) - (0 if force else r.randint(0, nd))
         args = []
-        for p in ps[:n]:
-            a = self.good_arg(p["type"])
+        for i_, p in enumerate(ps[:n]):
+            a = force[i_] if force and i_ in force else self.good_arg(p["type"])
             if a is None:
                 return None
             args.append(a)
         kw = {}
         op = fns[0].get("operator")
         if how == "pos":
-            if n >= 1 and r.random() < 0.25 and g["kind"] != "op":
+            if n >= 1 and r.random() < 0.25 and g["kind"] != "op" and not force:
                 # move a tail of the arguments into keyword form (names are the C++ parameter names)
                 cut = r.randint(0, n - 1)
                 for p, a in zip(ps[cut:n], args[cut:]):
@@ -1560,6 +1606,53 @@ class Driver:
                     return t
         return self.rng.choice(have) if have else None
 
+    def do_coerce_tuple(self):
+        """a tuple where `const K &` / `K` / `const K *` is expected: the elements may go to a non-explicit multi-parameter
+        constructor of K, never to an explicit one (TypeError, no body)"""
+        r = self.rng
+        cands = []
+        for g in self.groups.values():
+            if g["kind"] not in ("free", "method"):
+                continue
+            for f in g["fns"]:
+                for i, p in enumerate(f["params"]):
+                    t = p["type"]
+                    if t["k"] == "obj" and t["mode"] in ("cref", "val", "cptr"):
+                        for e in self.classes[t["cls"]]["ctors"]:
+                            if len(e["params"]) >= 2 and all(x["type"]["k"] != "obj" for x in e["params"]):
+                                cands.append((g, f, i, e))
+        if not cands:
+            return
+        expl = [c for c in cands if c[3].get("explicit")]
+        g, f, i, e = r.choice(expl if expl and r.random() < 0.7 else cands)
+        elts = [self.good_arg(x["type"]) for x in e["params"]]
+        if any(x is None for x in elts):
+            return
+        self.features.add("tuple-for-class:" + ("explicit" if e.get("explicit") else "converting") + "-ctor:" + f["params"][i]["type"]["mode"])
+        self.count("tuple_coercion_calls")
+        self.make_call(g, "pos", fn=f, force={i: Arg("tuple", extra=elts)})
+
+    def do_mi(self):
+        """every overload set over {ancestor, deep base, shallow base, derived} is called with an instance of exactly each
+        class it names and of the derived class: the nearest class wins"""
+        mg = self.m.get("mi_group")
+        if not mg:
+            return
+        for name in mg["sets"]:
+            g = self.groups.get(("free", None, name))
+            if g is None:
+                continue
+            mode = g["fns"][0]["params"][0]["type"]["mode"]
+            for q in sorted({f["params"][0]["type"]["cls"] for f in g["fns"]} | {mg["derived"]}):
+                o = self.pick_obj(q, want_nonconst=mode in ("ptr", "ref"), exact=True)
+                if o is None:
+                    continue
+                f = next((f for f in g["fns"] if f["params"][0]["type"]["cls"] == q), g["fns"][0])
+                self.features.add("mi-deep-first:arg=" + ("derived" if q == mg["derived"] else "deep" if q == mg["deep"] else
+                                                          "shallow" if q == mg["shallow"] else "ancestor") + ":" + mode)
+                self.count("mi_overload_calls")
+                self.make_call(g, "pos", fn=f, force={0: Arg("obj", t=o)})
+
     def do_setitem_const(self, c):
         """obj[i] = v through a const view must raise TypeError, run no body and leave the items alone"""
         q = c["qname"]
@@ -1793,10 +1886,12 @@ class Driver:
                 ev, created, destroyed = self.trace()
                 if destroyed or created:
                     self.bad("gc-changed-ledger", destroyed=destroyed, created=created)
-            elif x < 0.985:
+            elif x < 0.975:
                 self.do_copy()
-            else:
+            elif x < 0.985:
                 self.do_iadd_const()
+            else:
+                self.do_coerce_tuple()
         # const views of every item-assignment class are written to at least twice per history
         if not only:
             for c in self.m["classes"]:
@@ -1804,6 +1899,9 @@ class Driver:
                     self.do_setitem_const(c)
                     self.do_setitem_const(c)
             self.do_iadd_const()
+            for _ in range(6):
+                self.do_coerce_tuple()
+            self.do_mi()
         # every remaining group once more (A, B, A)
         for g in reversed(others):
             if g["kind"] != "ctor":
